@@ -12,7 +12,9 @@ is what judges every proof file the solver writes in the correspondence run:
 * `accepted_nogoods_implied`: in a satisfaction proof every nogood step that was accepted — each
   derived by RUP from exactly the steps it may use — holds in every solution of the model;
 * `inference_follows_from_its_constraint`: an accepted tagged inference is entailed by the single
-  constraint it is tagged with (within the declared domains);
+  constraint it is tagged with (within the declared domains, and given the definitions `r ↔ p` of
+  literal variables created for a predicate — the proof writes `p` where the constraint says `r`;
+  `inference_follows_from_its_constraint_plain`: with no such literals, by the constraint alone);
 * `conclusion_needs_empty_nogood`: without the empty nogood nothing is accepted as `UNSAT`.
 
 The reading of the two files into steps and literal definitions is the repo's own reader
@@ -23,36 +25,37 @@ import Pumpkin.Check.DrcpCheck
 namespace Pumpkin.C06
 open Pumpkin.Drcp Pumpkin.DrcpCheck Pumpkin.AtomRup
 
-theorem unsat_certificate (m : Model) (lits : List (Nat × Atom)) (obj : Obj) (steps : List Step)
-    (h : checkDrcp m lits obj steps = .unsat) : ∀ a, m.sat a = false :=
-  checkDrcp_unsat_sound m lits obj steps h
+theorem unsat_certificate (m : Model) (nd : Nat) (lits : List (Nat × Atom)) (obj : Obj) (steps : List Step)
+    (h : checkDrcp m nd lits obj steps = .unsat) : ∀ a, m.sat a = false :=
+  checkDrcp_unsat_sound m nd lits obj steps h
 
-theorem optimal_certificate_min (m : Model) (lits : List (Nat × Atom)) (x : Nat) (steps : List Step)
-    (b : Int) (h : checkDrcp m lits (.minimise x) steps = .bound b) :
+theorem optimal_certificate_min (m : Model) (nd : Nat) (lits : List (Nat × Atom)) (x : Nat) (steps : List Step)
+    (b : Int) (h : checkDrcp m nd lits (.minimise x) steps = .bound b) :
     ∀ a, m.sat a = true → b ≤ val a x :=
-  checkDrcp_bound_sound_min m lits x steps b h
+  checkDrcp_bound_sound_min m nd lits x steps b h
 
-theorem optimal_certificate_max (m : Model) (lits : List (Nat × Atom)) (x : Nat) (steps : List Step)
-    (b : Int) (h : checkDrcp m lits (.maximise x) steps = .bound b) :
+theorem optimal_certificate_max (m : Model) (nd : Nat) (lits : List (Nat × Atom)) (x : Nat) (steps : List Step)
+    (b : Int) (h : checkDrcp m nd lits (.maximise x) steps = .bound b) :
     ∀ a, m.sat a = true → val a x ≤ b :=
-  checkDrcp_bound_sound_max m lits x steps b h
+  checkDrcp_bound_sound_max m nd lits x steps b h
 
 /-- In a satisfaction proof there are no improvement axioms, so every accepted nogood is implied by
 the model alone. -/
-theorem accepted_nogoods_implied (m : Model) (lits : List (Nat × Atom)) (steps : List Step) (st : St)
-    (h : runSteps m lits .none {} steps = some st) :
+theorem accepted_nogoods_implied (m : Model) (nd : Nat) (lits : List (Nat × Atom)) (steps : List Step) (st : St)
+    (h : runSteps m nd lits .none {} steps = some st) :
     ∀ e ∈ st.nogoods, ∀ a, m.sat a = true → e.2.any (·.holds a) = true := by
   intro e he a ha
   -- with objective `none` the `Good` assignments are exactly the solutions, whatever `axs` is
-  have hinv := runSteps_inv m lits .none st.axioms steps {} st h (fun v hv => hv) (inv_init m _ _)
+  have hinv := runSteps_inv m nd lits .none st.axioms steps {} st h (fun v hv => hv) (inv_init m _ _)
   exact (hinv.2.2.1 e he).2 a ⟨ha, trivial⟩
 
 /-- An accepted tagged inference follows from the constraint it is tagged with. -/
-theorem inference_follows_from_its_constraint (m : Model) (lits : List (Nat × Atom)) (obj : Obj)
+theorem inference_follows_from_its_constraint (m : Model) (nd : Nat) (lits : List (Nat × Atom)) (obj : Obj)
     (st st' : St) (id : Nat) (prem : List Int) (prop : Option Int) (t : Nat) (label : Option String)
-    (h : stepCheck m lits obj st (.inference id prem prop (some t) label) = some st') :
+    (h : stepCheck m nd lits obj st (.inference id prem prop (some t) label) = some st') :
     ∃ (c : Cons) (premA : List Atom) (conclA : Option Atom), m.cons[t - 1]? = some c ∧ t ≠ 0 ∧ atomsOfCodes lits prem = some premA ∧
-      ∀ a, inDoms m.doms a = true → c.sat a = true → (∀ p ∈ premA, p.holds a = true) →
+      ∀ a, inDoms m.doms a = true → (∀ d ∈ defsOf m nd, d.sat a = true) → c.sat a = true →
+        (∀ p ∈ premA, p.holds a = true) →
         (match conclA with | some q => q.holds a = true | none => False) := by
   simp only [stepCheck, Option.bind_eq_bind] at h
   cases hp : atomsOfCodes lits prem with
@@ -69,7 +72,7 @@ theorem inference_follows_from_its_constraint (m : Model) (lits : List (Nat × A
           split at h
           · rename_i hchk
             simp only [Bool.and_eq_true, ne_eq, decide_eq_true_eq] at hchk
-            exact ⟨c, premA, none, hc, hchk.1, rfl, (checkInference_iff m.doms c premA none).1 hchk.2⟩
+            exact ⟨c, premA, none, hc, hchk.1, rfl, (checkInferenceD_iff m.doms _ c premA none).1 hchk.2⟩
           · cases h
         · cases h
     | some p =>
@@ -84,14 +87,27 @@ theorem inference_follows_from_its_constraint (m : Model) (lits : List (Nat × A
             split at h
             · rename_i hchk
               simp only [Bool.and_eq_true, ne_eq, decide_eq_true_eq] at hchk
-              exact ⟨c, premA, (some q), hc, hchk.1, rfl, (checkInference_iff m.doms c premA (some q)).1 hchk.2⟩
+              exact ⟨c, premA, (some q), hc, hchk.1, rfl, (checkInferenceD_iff m.doms _ c premA (some q)).1 hchk.2⟩
             · cases h
           · cases h
 
+/-- Without literals of predicates (`nd = 0`) the tagged constraint alone entails the inference. -/
+theorem inference_follows_from_its_constraint_plain (m : Model) (lits : List (Nat × Atom)) (obj : Obj)
+    (st st' : St) (id : Nat) (prem : List Int) (prop : Option Int) (t : Nat) (label : Option String)
+    (h : stepCheck m 0 lits obj st (.inference id prem prop (some t) label) = some st') :
+    ∃ (c : Cons) (premA : List Atom) (conclA : Option Atom), m.cons[t - 1]? = some c ∧ t ≠ 0 ∧ atomsOfCodes lits prem = some premA ∧
+      ∀ a, inDoms m.doms a = true → c.sat a = true → (∀ p ∈ premA, p.holds a = true) →
+        (match conclA with | some q => q.holds a = true | none => False) := by
+  obtain ⟨c, premA, conclA, h1, h2, h3, h4⟩ := inference_follows_from_its_constraint m 0 lits obj st st' id prem prop t label h
+  refine ⟨c, premA, conclA, h1, h2, h3, fun a hd hc hp => h4 a hd ?_ hc hp⟩
+  rw [defsOf_zero]
+  intro d hd'
+  cases hd'
+
 /-- `UNSAT` is never accepted unless the empty nogood was derived by an accepted step. -/
-theorem conclusion_needs_empty_nogood (m : Model) (lits : List (Nat × Atom)) (obj : Obj)
-    (steps : List Step) (st : St) (hr : runSteps m lits obj {} steps = some st)
-    (hs : st.sawEmpty = false) : checkDrcp m lits obj steps ≠ .unsat := by
+theorem conclusion_needs_empty_nogood (m : Model) (nd : Nat) (lits : List (Nat × Atom)) (obj : Obj)
+    (steps : List Step) (st : St) (hr : runSteps m nd lits obj {} steps = some st)
+    (hs : st.sawEmpty = false) : checkDrcp m nd lits obj steps ≠ .unsat := by
   unfold checkDrcp
   simp only [hr, hs, Bool.not_false, if_true]
   exact (concludeWithoutRefutation_ne lits obj _).1
@@ -113,17 +129,38 @@ def exProof : List Step :=
     .nogood 4 [] (some [2, 3]),                -- empty nogood from steps 2 and 3
     .unsat ]
 
-example : checkDrcp exModel exLits .none exProof = .unsat := by decide +kernel
+example : checkDrcp exModel 0 exLits .none exProof = .unsat := by decide +kernel
 
 /-- dropping the hint to the unit nogood makes the last nogood underivable -/
-example : checkDrcp exModel exLits .none
+example : checkDrcp exModel 0 exLits .none
     [ .inference 1 [-1] none (some 2) none, .nogood 2 [1] (some [1]),
       .inference 3 [1] none (some 1) none, .nogood 4 [] (some [3]), .unsat ] = .rejected := by
   decide +kernel
 
 /-- an inference tagged with the wrong constraint is rejected -/
-example : checkDrcp exModel exLits .none
+example : checkDrcp exModel 0 exLits .none
     [ .inference 1 [-1] none (some 1) none, .nogood 2 [1] (some [1]), .unsat ] = .rejected := by
+  decide +kernel
+
+/-! A literal of a predicate: `x0 ∈ 0..3`, `x1 ∈ {0,1}` defined as `[x0 ≥ 2]` (first constraint),
+constraint 2 `x1 ≥ 1`, constraint 3 `x0 ≤ 1`. The solver writes `[x0 ≥ 2]` for `[x1 ≥ 1]`: the
+inference `¬[x0 ≥ 2] → false` tagged with constraint 2 is accepted given the definition, and
+rejected when the definition is not declared. -/
+def exModelD : Model :=
+  Model.mk [[0, 1, 2, 3], [0, 1]]
+    [Cons.reif (Atom.ge 1 1) (Cons.linLe [⟨-1, 0, 0⟩] (-2)),
+     Cons.linLe [⟨-1, 0, 1⟩] (-1), Cons.linLe [⟨1, 0, 0⟩] 1]
+
+def exProofD : List Step :=
+  [ .inference 1 [-1] none (some 2) none, .nogood 2 [1] (some [1]),
+    .inference 3 [1] none (some 3) none, .nogood 4 [] (some [2, 3]), .unsat ]
+
+example : (defsOf exModelD 1).all (isDef exModelD.doms) = true := by decide +kernel
+example : checkDrcp exModelD 1 [(1, Atom.ge 0 2)] .none exProofD = .unsat := by decide +kernel
+example : checkDrcp exModelD 0 [(1, Atom.ge 0 2)] .none exProofD = .rejected := by decide +kernel
+/-- the negated predicate written for the literal (the seeded change C06b) is rejected -/
+example : checkDrcp exModelD 1 [(1, Atom.ge 0 2)] .none
+    [ .inference 1 [1] none (some 2) none, .nogood 2 [-1] (some [1]), .unsat ] = .rejected := by
   decide +kernel
 
 end Pumpkin.C06
